@@ -420,17 +420,25 @@ class Runtime:
         elif api == "ir_should_fold":
             # a caller-supplied callback that raises on its j-th call
             m = self._as_ir(mp)
-            j = op["raise_at"]
+            j = op.get("raise_at", 0)
+            answer = op.get("answer", "none")
             calls = [0]
 
             def should_fold(node):
                 calls[0] += 1
-                if calls[0] == j:
+                if j and calls[0] == j:
                     raise ValueError("callback failed")
+                if answer == "alternate":
+                    return bool(calls[0] % 2)
+                if answer == "never":
+                    return False
                 return None
 
             opt.optimize_ir(m, should_fold=should_fold, **opts)
             out = m
+        elif api == "positional":
+            # options given positionally (num_iterations is the first one)
+            out = opt.optimize(mp, *op.get("args", []))
         elif api == "fold_pass":
             from onnxscript.optimizer import _constant_folding as cf
 
